@@ -196,7 +196,7 @@ class C14(Check):
     quick_examples = 2500
     thorough_examples = 20000
     rule = (
-        "[drawn in addition since rounds 13-15: excluded parameter among the positional parameters; context registered positional=True; `x: T = None` defaults and explicit nulls drawn on purpose] "
+        "[round 16: pydantic model configuration extra = default / ignore / allow] [drawn in addition since rounds 13-15: excluded parameter among the positional parameters; context registered positional=True; `x: T = None` defaults and explicit nulls drawn on purpose] "
         "cases: signatures of 1..3 parameters (positional-or-keyword / keyword-only, with / without defaults) plus optional context parameter "
         "and optional parameters excluded by an exclusion predicate (name prefix 'dep_'; with a default, or without one and injected by a functools.wraps decorator), as plain function, coroutine or class based view "
         "method; JSON-schema half: per-parameter fragments from 15 schemas (type incl. unions, enum, minimum / maximum, minLength, items.type, a string format that is enforced only when the method's own validator arguments carry a format checker) + "
